@@ -141,7 +141,11 @@ theorem steps_request (lvl : Int) (app : App) (i st : Nat) (o : List Ev) (m : Ms
     have e3 : idleStep lvl app s2 = some s3 := by
       unfold idleStep; simp only [s1, s2, s3, fresh, happ]
       have : ¬ d.length = 0 := by omega
-      simp only [this, if_false]
+      have hbe : (d ++ rest).isEmpty = false := by
+        cases hd : d with
+        | nil => exact absurd hd hdne
+        | cons _ _ => rfl
+      simp only [this, if_false, hbe, Bool.and_false, Bool.false_eq_true]
     let s4 : St := { s3 with buf := rest, remaining := 0, state := .bodyReceived,
                              out := .upload d :: .first m.head.method m.head.target :: o }
     have e4 : idleStep lvl app s3 = some s4 := by
@@ -182,7 +186,17 @@ theorem steps_request (lvl : Int) (app : App) (i st : Nat) (o : List Ev) (m : Ms
     have e3 : idleStep lvl app s2 = some s3 := by
       unfold idleStep; simp only [s1, s2, s3, fresh, happ]
       have : ¬ sizeUnknown = 0 := by decide
-      simp only [this, if_false]
+      have hbe : (encodeChunked cs last ++ (tr ++ rest)).isEmpty = false := by
+        have hne := Chunk.line_ne lvl last hlast.toLineOK
+        cases hq : encodeChunked cs last ++ (tr ++ rest) with
+        | nil =>
+          have := congrArg List.length hq
+          simp only [encodeChunked, List.length_append, List.length_nil] at this
+          cases hl : last.line with
+          | nil => exact absurd hl hne
+          | cons _ _ => rw [hl] at this; simp at this
+        | cons _ _ => rfl
+      simp only [this, if_false, hbe, Bool.and_false, Bool.false_eq_true]
     have e4 := steps_chunked_body lvl app cs hcs last hlast (tr ++ rest) s3 rfl rfl
       (by show sizeUnknown ≠ 0; decide) rfl rfl rfl
     let s4 : St := { s3 with buf := tr ++ rest, out := uploadAll cs s3.out, state := .bodyReceived, remaining := 0 }
